@@ -945,6 +945,65 @@ Example C13_stamp_roundtrip_inhabited :
 Proof. exact Proofs.C13Stamp.stamp_roundtrip_inhabited. Qed.
 Print Assumptions C13_stamp_roundtrip_inhabited.
 
+(** ** "%s%.9f" and "%s%.f" (Proofs/C13StampFrac.v; [frac_spec_ok spec]: spec is the %.9f or the %.f item): the
+    reader admits them (the timestamp stops at the dot; the fraction counts forward from the floor, also
+    for negative timestamps).  For EVERY NaiveDateTime / DateTime<Utc> parsing the formatted text returns
+    [drop_leap v]: the value itself (C13_drop_leap_is_identity), a leap second read back as the non-leap
+    :59.fff of the same count of seconds. *)
+From V Require Proofs.C13StampFrac.
+Theorem C13_stamp_frac_ndt_roundtrip : forall y o v spec, Proofs.C13StampFrac.frac_spec_ok spec ->
+  Proofs.C08Sweeps.repr y o (Model.DateTime.nd_date v) -> valid_time (Model.DateTime.nd_time v) ->
+  exists text,
+    Model.Format.write_items (Model.Format.fa_of_ndt v) (Proofs.C13StampFrac.STAMP_FRAC_FMT spec) [] = Model.Format.fok text /\
+    (let+ p := parse Model.Parsed.parsed_new text (Proofs.C13StampFrac.STAMP_FRAC_FMT spec) in
+     pr_of (Model.Parsed.to_naive_datetime_with_offset p 0)) = pok (Proofs.C13StampFrac.drop_leap v).
+Proof. exact Proofs.C13StampFrac.ndt_stamp_frac_roundtrip. Qed.
+Print Assumptions C13_stamp_frac_ndt_roundtrip.
+
+Theorem C13_stamp_frac_utc_roundtrip : forall y o v spec, Proofs.C13StampFrac.frac_spec_ok spec ->
+  Proofs.C08Sweeps.repr y o (Model.DateTime.nd_date v) -> valid_time (Model.DateTime.nd_time v) ->
+  exists a text,
+    Model.Format.fa_of_utc v = Val a /\
+    Model.Format.write_items a (Proofs.C13StampFrac.STAMP_FRAC_FMT spec) [] = Model.Format.fok text /\
+    (let+ p := parse Model.Parsed.parsed_new text (Proofs.C13StampFrac.STAMP_FRAC_FMT spec) in pr_of (Model.Parsed.to_datetime p))
+      = pok (Model.DateTime.mk_dtz (Proofs.C13StampFrac.drop_leap v) 0).
+Proof. exact Proofs.C13StampFrac.utc_stamp_frac_roundtrip. Qed.
+Print Assumptions C13_stamp_frac_utc_roundtrip.
+
+Theorem C13_stamp_frac_ndt_parse_from_str : forall y o v spec, Proofs.C13StampFrac.frac_spec_ok spec ->
+  Proofs.C08Sweeps.repr y o (Model.DateTime.nd_date v) -> valid_time (Model.DateTime.nd_time v) ->
+  exists text,
+    Model.Format.delayed_display (Model.Format.fa_of_ndt v) (Model.Strftime.sf_new (Proofs.C13StampFrac.stamp_frac_format spec))
+      = Model.Format.fok text /\
+    ndt_parse_from_str text (Proofs.C13StampFrac.stamp_frac_format spec) = pok (Proofs.C13StampFrac.drop_leap v).
+Proof. exact Proofs.C13StampFrac.ndt_stamp_frac_parse_from_str. Qed.
+Print Assumptions C13_stamp_frac_ndt_parse_from_str.
+
+Theorem C13_stamp_frac_utc_parse_from_str : forall y o v spec, Proofs.C13StampFrac.frac_spec_ok spec ->
+  Proofs.C08Sweeps.repr y o (Model.DateTime.nd_date v) -> valid_time (Model.DateTime.nd_time v) ->
+  exists a text,
+    Model.Format.fa_of_utc v = Val a /\
+    Model.Format.delayed_display a (Model.Strftime.sf_new (Proofs.C13StampFrac.stamp_frac_format spec)) = Model.Format.fok text /\
+    dt_parse_from_str text (Proofs.C13StampFrac.stamp_frac_format spec)
+      = pok (Model.DateTime.mk_dtz (Proofs.C13StampFrac.drop_leap v) 0).
+Proof. exact Proofs.C13StampFrac.utc_stamp_frac_parse_from_str. Qed.
+Print Assumptions C13_stamp_frac_utc_parse_from_str.
+
+Theorem C13_drop_leap_is_identity : forall v,
+  Model.Time.tfrac (Model.DateTime.nd_time v) < 1000000000 -> 0 <= Model.Time.tfrac (Model.DateTime.nd_time v) ->
+  Proofs.C13StampFrac.drop_leap v = v.
+Proof. exact Proofs.C13StampFrac.drop_leap_id. Qed.
+Print Assumptions C13_drop_leap_is_identity.
+
+Example C13_stamp_frac_inhabited :
+  Proofs.C13StampFrac.frac_spec_ok F_Nanosecond9 /\ Proofs.C13StampFrac.frac_spec_ok F_Nanosecond /\
+  ndt_parse_from_str [45; 50; 46; 53; 48; 48; 48; 48; 48; 48; 48; 48] (Proofs.C13StampFrac.stamp_frac_format F_Nanosecond9) =
+    pok (Model.DateTime.mk_ndt (Proofs.C08Sweeps.mkdate 1969 365) (Model.Time.mk_time 86398 500000000)) /\
+  ndt_parse_from_str [45; 50; 46; 53; 48; 48] (Proofs.C13StampFrac.stamp_frac_format F_Nanosecond) =
+    pok (Model.DateTime.mk_ndt (Proofs.C08Sweeps.mkdate 1969 365) (Model.Time.mk_time 86398 500000000)).
+Proof. exact Proofs.C13StampFrac.stamp_frac_inhabited. Qed.
+Print Assumptions C13_stamp_frac_inhabited.
+
 (** ** never-Panic (slice safety) for EVERY item list, the Fixed::RFC2822 item included
     (Proofs/C13Total.v; the older forms above, which exclude that item, are kept under their names).
     [Proofs.C13Total.item_wf]: the only condition on an item is that a literal is a string (what
